@@ -1,14 +1,20 @@
 """C19 — ROMC bounding-box regions, line search, posterior counts and sample weights:
 correspondence with coq/Num/Box.v.
 
-Four kinds of case (Coq type Box.case):
+Six kinds of case (Coq type Box.case):
   box    NDimBoundingBox(rotation, center, limits): secured limits, volume, rotation_inv, contains/pdf on
          chosen points (inside / outside / on the boundary / far), sample() rows with the generator's
          draws recorded;
   line   line_search on a scripted piecewise-constant objective (direct call, or through
          RegionConstructor.build with a diagonal Hessian);
   post   RomcPosterior built directly: _pdf_unnorm_single_point / pdf_unnorm_batched with recorded calls;
-  weight RomcPosterior.sample weights (drawn) and _worker_compute_weight on chosen points.
+  weight RomcPosterior.sample weights (drawn) and _worker_compute_weight on chosen points;
+  fam    construction history: several NDimBoundingBox built from shared / re-used / overwritten array objects
+         (several dtypes and layouts of the limits buffer); every member observed after the whole history against
+         a fresh model box of its own inputs; the caller's arrays must not be modified by the library;
+  hist   call history on one RomcPosterior: evaluations (bit-identical revisits), pdf(), sample(),
+         _worker_compute_weight interleaved with reset_eps_cutoff; the model's only state is the current cut-off,
+         and every answer also equals that of a posterior constructed at that step with that cut-off.
 """
 import math
 from fractions import Fraction as Fr
@@ -129,10 +135,20 @@ class C19(PropCheck):
             'rotations, dyadic centres, limits incl. degenerate ones (0,0), (+-2^-11), (+-0.0005) and sign-violating ones; '
             'points inside/outside/on the boundary/far; sample() with recording RandomState, int seed, global seed; line_search '
             'on scripted piecewise-constant objectives (K 0-12, dyadic eta, rep_lim 0-300) directly and through '
-            'RegionConstructor.build; RomcPosterior built directly (1-4 regions, surrogate flag on/off, cut-off ties). '
+            'RegionConstructor.build; RomcPosterior built directly (1-4 regions, surrogate flag on/off, cut-off ties); '
+            'construction histories: families of 2-4 boxes whose limits / rotation / centre array objects are fresh, shared as '
+            'they are, or (limits) overwritten in place by the caller between constructions and after the last one; limits '
+            'buffers float64 C / Fortran order / non-contiguous view / float32 / int64, >= 1 dimension that gets widened in most '
+            'families; every member observed after the whole history and compared with a fresh model box of its own inputs; '
+            'caller\'s arrays byte-compared around every library call; call histories on one RomcPosterior: evaluations at a '
+            'pool of points (bit-identical revisits, same or new array object, single / batched), pdf(), sample(), '
+            '_worker_compute_weight interleaved with reset_eps_cutoff to smaller and larger values; every answer compared with the '
+            'model run with the cut-off in force and with a posterior constructed at that step with that cut-off. '
             'Non-trivial = box case with a non-axis-aligned rotation and >= 1 boundary or outside point, line case whose first '
             'probe is below the threshold and which probes >= 3 offsets, posterior case where the count is neither 0 nor all, '
-            'weight case with both indicator values; distinct by full input')
+            'weight case with both indicator values, family in which a limits array object with a widened dimension is handed to '
+            '>= 2 constructors, history in which a point is re-evaluated bit-identically under another cut-off for which the '
+            'count differs; distinct by full input')
     trusted = ('np.linalg.inv is not modelled: the exact inverse (harness, Fractions) is an input of the model and is validated '
                'inside Coq (Rinv*R = I exactly); the implementation\'s rotation_inv is compared with it to 1e-9',
                'scipy uniform.rvs(size, random_state) = loc + scale*random_state.uniform(0,1,size) (re-tested on every sample case)',
@@ -238,6 +254,7 @@ class C19(PropCheck):
     def generate(self):
         q = self.tier == 'quick'
         nbox, nline, nbuild, npost, nw = (260, 320, 40, 220, 90) if q else (3200, 4000, 500, 2800, 1100)
+        nfam, nhist = (110, 90) if q else (1300, 1000)
         r = self.rng
         for _ in range(nbox):
             b = self.gen_box()
@@ -254,6 +271,61 @@ class C19(PropCheck):
             yield self.gen_post('post')
         for _ in range(nw):
             yield self.gen_post('weight')
+        for _ in range(nfam):
+            yield self.gen_fam()
+        for _ in range(nhist):
+            yield self.gen_hist()
+
+    DEGEN = [(Fr(0), Fr(0)), (Fr(0), Fr(0)), (Fr(-1, 2048), Fr(1, 2048)), (Fr(-0.0005), Fr(0.0005)), (Fr(0), Fr(1, 1024)),
+             (Fr(-0.001), Fr(0)), (Fr(-0.00025), Fr(0.00025))]
+
+    def fam_limits(self, D, layout, malformed=False):
+        r = self.rng
+        if layout == 'i8':
+            L = [((Fr(0), Fr(0)) if r.random() < 0.35 else (Fr(-r.randint(0, 3)), Fr(r.randint(1, 3)))) for _ in range(D)]
+            if malformed:
+                L[r.randrange(D)] = (Fr(1), Fr(2))
+            return L
+        L = self.limits(D, malformed)
+        if r.random() < 0.6:                      # at least one dimension that _secure_limits has to widen
+            for i in r.sample(range(D), r.randint(1, D)):
+                if not (malformed and (L[i][0] > 0 or L[i][1] < 0)):
+                    L[i] = r.choice(self.DEGEN)
+        return L
+
+    def gen_fam(self):
+        """a construction history: 2-4 boxes of one dimension; limits / rotation / centre array objects are
+        fresh, shared as they are, or (limits) overwritten in place by the caller between two constructions"""
+        r = self.rng
+        D = r.choice([1, 2, 2, 3, 3, 4])
+        layout = r.choice(['f8', 'f8', 'f8', 'f8F', 'view', 'f4', 'i8'])
+        n = r.randint(2, 4)
+        members = []
+        prev = None
+        for k in range(n):
+            lim_mode = 'fresh' if k == 0 else r.choice(['same', 'same', 'same', 'overwrite', 'overwrite', 'fresh'])
+            rc_mode = r.choice(['fresh', 'freshF']) if k == 0 else r.choice(['same', 'fresh', 'fresh', 'freshF'])
+            mal = lim_mode != 'same' and r.random() < 0.04
+            b = self.gen_box(D=D, kind=r.choice(['perm', 'pyth', 'pyth', 'unimod', 'general', 'scaled']), malformed=False)
+            m = dict(R=b['R'], c=b['c'], rc_mode=rc_mode, lim_mode=lim_mode,
+                     L=[[sfr(a), sfr(b_)] for a, b_ in self.fam_limits(D, layout, mal)],
+                     npts=r.randint(2, 4), n2=r.choice([0, 1, 1, 2]), seedmode=r.choice(['rs', 'rs', 'int', 'none']),
+                     seed=r.randrange(2 ** 31), pseed=r.randrange(2 ** 31))
+            if prev is not None and rc_mode == 'same':
+                m['R'], m['c'] = prev['R'], prev['c']
+            if prev is not None and lim_mode == 'same':
+                m['L'] = prev['L']
+            members.append(m)
+            prev = m
+            self.bump('fam/limits-object=' + lim_mode)
+            self.bump('fam/rot-centre-object=' + rc_mode)
+        self.bump('fam/layout=' + layout)
+        self.bump('fam/dim=%d' % D)
+        self.bump('fam/n=%d' % n)
+        case = dict(kind_case='fam', D=D, layout=layout, members=members, scribble=r.random() < 0.4)
+        ndeg = sum(1 for a, b_ in members[0]['L'] if abs(ufr(b_) - ufr(a)) <= Fr(1, 512))
+        self.bump('fam/degenerate-dims-first-box=%s' % (ndeg if ndeg < 2 else '2+'))
+        return case
 
     def gen_profile(self, shape, eps, off_grid):
         r = self.rng
@@ -351,6 +423,71 @@ class C19(PropCheck):
         self.bump('%s/nreg=%d' % (which, nreg))
         return case
 
+    def gen_hist(self):
+        """a call history on ONE RomcPosterior: evaluations of the unnormalised density at a small pool of points
+        (so that bit-identical points recur), pdf(), sample(), _worker_compute_weight, interleaved with
+        reset_eps_cutoff to smaller and larger values"""
+        r = self.rng
+        D = r.choice([1, 2, 2, 3])
+        nreg = r.randint(1, 4)
+        regs = []
+        for _ in range(nreg):
+            b = self.gen_box(D=D, kind=r.choice(['perm', 'pyth', 'unimod', 'general', 'unimod']), malformed=False)
+            if r.random() < 0.7:
+                b['c'] = [sfr(Fr(r.randint(-8, 8), 8)) for _ in range(D)]
+            regs.append(b)
+        anchors = [[sfr(Fr(r.randint(-16, 16), 8)) for _ in range(D)] for _ in range(nreg)]
+        scales = [r.choice([1, 1, 2, 4]) for _ in range(nreg)]
+        lo, hi = Fr(r.randint(1, 6), 8), Fr(r.randint(10, 28), 8)
+        for i in range(nreg):
+            # most objectives take, at their region's centre, a value between the smallest and the largest cut-off
+            # (so that the count at a revisited point depends on which cut-off is in force)
+            if r.random() < 0.7:
+                a = [ufr(x) for x in regs[i]['c']]
+                a[r.randrange(D)] += r.choice([1, -1]) * (lo + (hi - lo) * Fr(r.randint(1, 3), 4)) / scales[i]
+                anchors[i] = [sfr(x) for x in a]
+        eps_vals = [lo, hi] + ([Fr(r.randint(4, 16), 8)] if r.random() < 0.5 else [])
+        r.shuffle(eps_vals)
+        prior = r.choice([['box', [4.0, 0.125]], ['box', [1.0, 0.5]], ['tent', 8.0], ['const', 0.375]])
+        npool = r.randint(3, 6)
+        pool = [r.choice(['centre', 'centre', 'centre', 'anchor', 'boundary', 'rand', 'rand', 'tie', 'grid', 'far']) for _ in range(npool)]
+        steps = []
+        seen = []
+        cur = eps_vals[0]
+
+        def ev(i):
+            if i not in seen:
+                seen.append(i)
+            return dict(op='eval', pt=i, batched=r.random() < 0.3, same_obj=r.random() < 0.5)
+        for _ in range(r.randint(1, 3)):
+            steps.append(ev(r.randrange(npool)))
+        nres = 0
+        for _ in range(r.randint(4, 10)):
+            k = r.random()
+            if k < 0.25:
+                new = r.choice([e for e in eps_vals if e != cur])
+                self.bump('hist/reset=' + ('smaller' if new < cur else 'larger'))
+                cur = new
+                nres += 1
+                steps.append(dict(op='reset', eps=sfr(new)))
+                if seen and r.random() < 0.75:          # come back to a point that was evaluated before
+                    steps.append(ev(r.choice(seen)))
+            elif k < 0.70:
+                steps.append(ev(r.choice(seen) if seen and r.random() < 0.5 else r.randrange(npool)))
+            elif k < 0.80 and D <= 2:
+                steps.append(dict(op='pdf', pts=[r.randrange(npool) for _ in range(r.randint(1, 3))]))
+            elif k < 0.92:
+                steps.append(dict(op='sample', n2=r.randint(1, 3), seed=r.randrange(2 ** 31), emit=r.randrange(nreg)))
+            else:
+                steps.append(dict(op='worker', n2=r.randint(1, 3), pseed=r.randrange(2 ** 31), emit=r.randrange(nreg)))
+        for st in steps:
+            self.bump('hist/op=' + st['op'])
+        self.bump('hist/resets=%s' % (nres if nres < 3 else '3+'))
+        self.bump('hist/nreg=%d' % nreg)
+        return dict(kind_case='hist', D=D, regions=regs, anchors=anchors, scales=scales, eps=sfr(eps_vals[0]),
+                    eps_vals=[sfr(e) for e in eps_vals], prior=prior, surrogate=r.random() < 0.6,
+                    pool=pool, pseed=r.randrange(2 ** 31), steps=steps)
+
     # ---------------------------------------------------------------- implementation drivers
     def box_inputs(self, b):
         R = [[ufr(x) for x in row] for row in b['R']]
@@ -417,13 +554,30 @@ class C19(PropCheck):
     def run_impl(self, case):
         return getattr(self, 'run_' + case['kind_case'])(case)
 
+    @staticmethod
+    def snap(arrs):
+        """bytes + dtype + shape of the caller's arrays (values as the caller sees them through its own reference)"""
+        return [(a.tobytes(), str(a.dtype), a.shape) for a in arrs]
+
     def run_box(self, case):
+        from elfi.methods.inference.romc import NDimBoundingBox
         R, c, L = self.box_inputs(case)
         Rinv = f_inv(R)
+        args = [fl(R), fl(c), np.array([[float(a), float(b_)] for a, b_ in L], dtype=float)]
+        before = self.snap(args)
         try:
-            bb = self.make_bb(case)
+            bb = NDimBoundingBox(*args)
         except AssertionError:
-            return dict(ok=False, Rinv=None if Rinv is None else [[sfr(x) for x in r] for r in Rinv])
+            return dict(ok=False, Rinv=None if Rinv is None else [[sfr(x) for x in r] for r in Rinv],
+                        args_unchanged=self.snap(args) == before)
+        out = self.observe_box(case, bb)
+        out['args_unchanged'] = self.snap(args) == before
+        return out
+
+    def observe_box(self, case, bb):
+        """attributes of one constructed box, contains/pdf on chosen points, sample() rows"""
+        R, c, L = self.box_inputs(case)
+        Rinv = f_inv(R)
         out = dict(ok=True, Rinv=None if Rinv is None else [[sfr(x) for x in r] for r in Rinv],
                    lims=[[float(a), float(b)] for a, b in bb.limits], vol=float(bb.volume),
                    rotinv=[[float(x) for x in r] for r in bb.rotation_inv], pts=[], smps=[], rvs_ok=True)
@@ -462,6 +616,65 @@ class C19(PropCheck):
                 if D > 1 and all(len({float(U[i][j]) for i in range(D)}) == 1 for j in range(n2)):
                     out['same_draw'] = True
         return out
+
+    # ---- construction histories: several boxes, shared array objects, caller-side overwrites
+    def lim_buffer(self, D, layout, vals):
+        """the caller's limits array in the requested dtype / memory layout, holding `vals` (D x 2 numbers)"""
+        v = [[float(a), float(b_)] for a, b_ in vals]
+        if layout == 'f8':
+            return np.array(v, dtype=np.float64)
+        if layout == 'f8F':
+            return np.asfortranarray(np.array(v, dtype=np.float64))
+        if layout == 'view':                       # non-contiguous view into a wider array of the caller
+            big = np.full((D, 5), 7.0)
+            buf = big[:, 1:4:2]
+            buf[...] = v
+            return buf
+        if layout == 'f4':
+            return np.array(v, dtype=np.float32)
+        if layout == 'i8':
+            return np.array(v, dtype=np.int64)
+        raise ValueError(layout)
+
+    def run_fam(self, case):
+        from elfi.methods.inference.romc import NDimBoundingBox
+        D = case['D']
+        boxes, used, unchanged = [], [], True
+        Rarr = carr = buf = None
+        for m in case['members']:
+            R, c, L = self.box_inputs(m)
+            if m['rc_mode'] != 'same' or Rarr is None:
+                Rarr = np.asfortranarray(fl(R)) if m['rc_mode'] == 'freshF' else fl(R)
+                carr = fl(c)
+            if m['lim_mode'] == 'fresh' or buf is None:
+                buf = self.lim_buffer(D, case['layout'], L)
+            elif m['lim_mode'] == 'overwrite':     # the caller re-uses its buffer for the next box's limits
+                buf[...] = [[float(a), float(b_)] for a, b_ in L]
+            # 'same': the same object, not touched by the caller since the previous construction
+            # what the constructor is handed, exactly (the model's input for this member)
+            # (rotation / centre: the exact rationals whose binary64 roundings are handed over, as for single boxes;
+            #  limits: read back from the buffer, exactly, since the buffer's dtype may have rounded them)
+            used.append(dict(R=m['R'], c=m['c'], L=[[sfr(float(a)), sfr(float(b_))] for a, b_ in buf]))
+            args = [Rarr, carr, buf]
+            before = self.snap(args)
+            try:
+                boxes.append(NDimBoundingBox(Rarr, carr, buf))
+            except AssertionError:
+                boxes.append(None)
+            unchanged = unchanged and self.snap(args) == before
+        if case['scribble']:                       # the caller clears / re-fills its limits buffer afterwards
+            buf[...] = [[-3.0, 5.0]] * D
+        final = self.snap([Rarr, carr, buf])
+        outs = []
+        for m, u, bb in zip(case['members'], used, boxes):
+            mm = dict(m, D=D, R=u['R'], c=u['c'], L=u['L'])
+            if bb is None:
+                Rinv = f_inv(self.box_inputs(mm)[0])
+                outs.append(dict(ok=False, Rinv=None if Rinv is None else [[sfr(x) for x in r] for r in Rinv]))
+            else:
+                outs.append(self.observe_box(mm, bb))
+        unchanged = unchanged and self.snap([Rarr, carr, buf]) == final
+        return dict(members=outs, used=used, args_unchanged=unchanged)
 
     def scripted(self, case, neg=False):
         tbl = [(ufr(b), ufr(v)) for b, v in case['tbl_neg' if neg else 'tbl']]
@@ -563,12 +776,9 @@ class C19(PropCheck):
                              eps_cutoff=float(ufr(case['eps'])), parallelize=False)
         return post, regions, funcs, exact, log, prior
 
-    def run_post(self, case):
-        post, regions, funcs, exact, log, prior = self.make_post(case)
-        prng = random.Random(case['pseed'])
+    def post_point(self, case, regions, mode, prng, eps):
         D = case['D']
         i = prng.randrange(len(regions))
-        mode = case['mode']
         if mode == 'centre':
             th = [ufr(x) + Fr(prng.randint(-2, 2), 16) for x in case['regions'][i]['c']]
         elif mode == 'anchor':
@@ -581,12 +791,18 @@ class C19(PropCheck):
             # a point whose distance to anchor i is exactly the cut-off (tests <=)
             a = [ufr(x) for x in case['anchors'][i]]
             th = a[:]
-            th[0] = a[0] + ufr(case['eps']) / case['scales'][i]
+            th[0] = a[0] + eps / case['scales'][i]
+        elif mode == 'grid':
+            # a node of the grid pdf() integrates over (left_lim = -4, right_lim = 4, 30 nodes per dimension)
+            g = np.linspace(-4.0, 4.0, 30)
+            th = [Fr(float(g[prng.randrange(8, 22)])) for _ in range(D)]
         else:
             th = [Fr(prng.randint(-16, 16), 8) for _ in range(D)]
-        thf = np.array([float(x) for x in th], dtype=float)
+        return np.array([float(x) for x in th], dtype=float)
+
+    def eval_obs(self, case, post, regions, exact, log, prior, thf, batched):
         del log[:]
-        if case['batched']:
+        if batched:
             val = post.pdf_unnorm_batched(np.array([thf]))
             val = float(val[0])
         else:
@@ -598,6 +814,96 @@ class C19(PropCheck):
                     exact=[bool(self.exact_point(b, f_inv(self.box_inputs(b)[0]), [float(x) for x in thf], rg)
                                 and self.lims_exact(b, rg))
                            for b, rg in zip(case['regions'], regions)])
+
+    def run_post(self, case):
+        post, regions, funcs, exact, log, prior = self.make_post(case)
+        prng = random.Random(case['pseed'])
+        thf = self.post_point(case, regions, case['mode'], prng, ufr(case['eps']))
+        return self.eval_obs(case, post, regions, exact, log, prior, thf, case['batched'])
+
+    def weight_obs(self, rg, prior, exact_i, pts, w, dist):
+        return [dict(p=[float(x) for x in pts[j]], prior=float(prior.value(pts[j])), dist=float(dist[j]),
+                     dist_expected=float(exact_i(pts[j])), w=float(w[j]), q=float(rg.pdf(pts[j])))
+                for j in range(len(pts))]
+
+    def run_hist(self, case):
+        import contextlib, io
+        post, regions, funcs, exact, log, prior = self.make_post(case)
+        prng = random.Random(case['pseed'])
+        evs = [ufr(e) for e in case['eps_vals']]
+        pool = [self.post_point(case, regions, mode, prng, prng.choice(evs)) for mode in case['pool']]
+        cur = ufr(case['eps'])
+        last = {}                 # pool index -> (cut-off, model-free count) at its previous evaluation
+        visible = 0
+        steps = []
+        bad = []
+
+        def same(a, b):
+            a, b = np.asarray(a, dtype=float), np.asarray(b, dtype=float)
+            return a.shape == b.shape and bool(np.array_equal(a, b, equal_nan=True))
+        for k, st in enumerate(case['steps']):
+            op = st['op']
+            if op == 'reset':
+                cur = ufr(st['eps'])
+                post.reset_eps_cutoff(float(cur))
+                steps.append(dict(op='reset'))
+                continue
+            # the reference for this step: a posterior constructed just now with the current cut-off
+            twin, tregions, tfuncs, _, _, tprior = self.make_post(dict(case, eps=sfr(cur)))
+            if op == 'eval':
+                thf = pool[st['pt']] if st['same_obj'] else pool[st['pt']].copy()
+                o = self.eval_obs(case, post, regions, exact, log, prior, thf, st['batched'])
+                tv = float(twin.pdf_unnorm_batched(np.array([thf]))[0]) if st['batched'] else float(twin._pdf_unnorm_single_point(thf))
+                if not same(o['val'], tv):
+                    bad.append('step %d: unnormalised density %r at %r, a posterior constructed with the current cut-off %s gives %r'
+                               % (k, o['val'], o['theta'], float(cur), tv))
+                cnt = sum(1 for d, c in zip(o['dists'], o['contains']) if ufr(d) <= cur and (c or not case['surrogate']))
+                if st['pt'] in last and last[st['pt']][0] != cur and last[st['pt']][1] != cnt:
+                    visible += 1
+                last[st['pt']] = (cur, cnt)
+                o['op'] = 'eval'
+                steps.append(o)
+            elif op == 'pdf':
+                th = np.array([pool[i] for i in st['pts']])
+                with np.errstate(all='ignore'):
+                    v = post.pdf(th)
+                    tv = twin.pdf(th)
+                if not same(v, tv):
+                    bad.append('step %d: pdf() = %r, a posterior constructed with the current cut-off %s gives %r'
+                               % (k, list(np.asarray(v)), float(cur), list(np.asarray(tv))))
+                steps.append(dict(op='pdf', val=[repr(float(x)) for x in np.asarray(v).reshape(-1)]))
+            elif op == 'sample':
+                n2 = st['n2']
+                with contextlib.redirect_stdout(io.StringIO()):
+                    theta, w, dist = post.sample(n2, seed=RecState(st['seed']))
+                    tt, tw, td = twin.sample(n2, seed=RecState(st['seed']))
+                theta, w, dist = np.asarray(theta), np.asarray(w), np.asarray(dist)
+                shape_ok = (theta.shape == (len(regions), n2, case['D']) and w.shape == (len(regions), n2)
+                            and dist.shape == (len(regions) * n2,))
+                if not (same(theta, tt) and same(w, tw) and same(dist, td)):
+                    bad.append('step %d: sample() rows / weights / distances differ from those of a posterior constructed '
+                               'with the current cut-off %s (weights %r vs %r)' % (k, float(cur), w.tolist(), np.asarray(tw).tolist()))
+                i = st['emit']
+                obs = self.weight_obs(regions[i], prior, exact[i], theta[i], w[i], dist[i * n2:(i + 1) * n2]) if shape_ok else []
+                steps.append(dict(op='sample', shape_ok=bool(shape_ok), region=i, drawn=True, obs=obs))
+            elif op == 'worker':
+                i, n2 = st['emit'], st['n2']
+                wr = random.Random(st['pseed'])
+                pts = [pf for _, pf in self.choose_points(case['regions'][i], regions[i], n2, wr)]
+                if wr.random() < 0.5:
+                    a = [ufr(x) for x in case['anchors'][i]]
+                    a[0] = a[0] + cur / case['scales'][i]
+                    pts[0] = [float(x) for x in a]
+                th = np.array(pts, dtype=float)
+                # as the parallel branch of sample() calls it: eps = self.eps_cutoff
+                w, dist = post._worker_compute_weight((i, th, regions[i], prior, funcs[i], post.eps_cutoff, n2))
+                tw, td = twin._worker_compute_weight((i, th, tregions[i], tprior, tfuncs[i], twin.eps_cutoff, n2))
+                if not (same(w, tw) and same(dist, td)):
+                    bad.append('step %d: _worker_compute_weight differs from a posterior constructed with the current cut-off' % k)
+                steps.append(dict(op='worker', shape_ok=True, region=i, drawn=False,
+                                  obs=self.weight_obs(regions[i], prior, exact[i], th, w, dist)))
+        self.bump('hist/revisit-count-changes=%s' % (visible if visible < 2 else '2+'))
+        return dict(steps=steps, twin_bad=bad, visible=visible, eps_attr=float(post.eps_cutoff), eps_expected=float(cur))
 
     def run_weight(self, case):
         post, regions, funcs, exact, log, prior = self.make_post(case)
@@ -653,6 +959,17 @@ class C19(PropCheck):
             vals = [x for obs in out['per'] for o in obs for x in (o['w'], o['q'], o['dist'])]
         elif k == 'build':
             vals = [s_['res'] for s_ in out['searches']] + [x for r in out['lims'] for x in r]
+        elif k == 'fam':
+            for o in out['members']:
+                if o.get('ok'):
+                    vals += [o['vol']] + [x for r in o['lims'] for x in r] + [p['pdf'] for p in o['pts']] + \
+                            [s_['pdf'] for s_ in o['smps']] + [x for s_ in o['smps'] for x in s_['p']]
+        elif k == 'hist':
+            for st in out['steps']:
+                if st['op'] == 'eval':
+                    vals.append(st['val'])
+                elif st['op'] in ('sample', 'worker'):
+                    vals += [x for o in st['obs'] for x in (o['w'], o['q'], o['dist'])]
         return [v for v in vals if not math.isfinite(v)]
 
     def py_check(self, case, out):
@@ -666,6 +983,30 @@ class C19(PropCheck):
                 bad.append(('sample_draws', 'sample() did not draw one uniform vector of length n2 per coordinate'))
             if case['n2'] and not out.get('shape_ok', True):
                 bad.append(('sample_shape', 'sample() did not return an (n2, D) array'))
+        if k in ('box', 'fam') and not out.get('args_unchanged', True):
+            bad.append(('caller_arrays_unchanged', 'NDimBoundingBox (constructor / contains / pdf / sample) modified an array '
+                        'object of the caller (rotation, centre or limits)'))
+        if k == 'fam':
+            for j, o in enumerate(out['members']):
+                if o.get('ok') and case['members'][j]['n2']:
+                    if not o.get('rvs_ok', True):
+                        bad.append(('sample_draws', 'box %d: sample() did not draw one uniform vector of length n2 per coordinate' % j))
+                    if not o.get('shape_ok', True):
+                        bad.append(('sample_shape', 'box %d: sample() did not return an (n2, D) array' % j))
+        if k == 'hist':
+            for msg in out['twin_bad'][:1]:
+                bad.append(('history_independent', 'one RomcPosterior after a history of calls and reset_eps_cutoff: ' + msg))
+            if out['eps_attr'] != out['eps_expected']:
+                bad.append(('reset_eps_cutoff', 'eps_cutoff is %r after reset_eps_cutoff(%r)' % (out['eps_attr'], out['eps_expected'])))
+            for st in out['steps']:
+                if st['op'] in ('sample', 'worker'):
+                    if not st['shape_ok']:
+                        bad.append(('weight_shapes', 'sample() returned arrays of unexpected shape'))
+                    for o in st['obs']:
+                        if o['dist'] != o['dist_expected']:
+                            bad.append(('weight_distance', 'reported distance %r is not the region\'s own objective at the sample (%r)'
+                                        % (o['dist'], o['dist_expected'])))
+                            return bad
         if k == 'line' and not out['th_unchanged']:
             bad.append(('line_search_mutates_start', 'line_search modified the caller\'s starting point'))
         if k == 'weight':
@@ -713,21 +1054,54 @@ class C19(PropCheck):
         return ('{| ri_rot := %s; ri_rotinv := %s; ri_center := %s; ri_lims := %s |}'
                 % (cmat(R), copt(Rinv, cmat), cvec(c), clims(L)))
 
-    def coq_box(self, case, out):
+    def box_term(self, case, out):
         R, c, L = self.box_inputs(case)
         Rinv = None if out['Rinv'] is None else [[ufr(x) for x in r] for r in out['Rinv']]
         if not out['ok']:
-            return ('CBox {| bc_rot := %s; bc_rotinv := %s; bc_center := %s; bc_lims := %s; bc_tol := %s; bc_impl_ok := false; '
+            return ('{| bc_rot := %s; bc_rotinv := %s; bc_center := %s; bc_lims := %s; bc_tol := %s; bc_impl_ok := false; '
                     'bc_impl_lims := []; bc_impl_vol := 0; bc_impl_rotinv := []; bc_pts := []; bc_smps := [] |}'
                     % (cmat(R), copt(Rinv, cmat), cvec(c), clims(L), cq(TOL)))
         pts = clist(['{| po_p := %s; po_tol := %s; po_contains := %s; po_pdf := %s |}'
                      % (cvec(p['p']), cq(0 if p['exact'] else TOL), cbool(p['contains']), cq(p['pdf'])) for p in out['pts']])
         smps = clist(['{| so_u := %s; so_p := %s; so_contains := %s; so_pdf := %s |}'
                       % (cvec(s['u']), cvec(s['p']), cbool(s['contains']), cq(s['pdf'])) for s in out['smps']])
-        return ('CBox {| bc_rot := %s; bc_rotinv := %s; bc_center := %s; bc_lims := %s; bc_tol := %s; bc_impl_ok := true; '
+        return ('{| bc_rot := %s; bc_rotinv := %s; bc_center := %s; bc_lims := %s; bc_tol := %s; bc_impl_ok := true; '
                 'bc_impl_lims := %s; bc_impl_vol := %s; bc_impl_rotinv := %s; bc_pts := %s; bc_smps := %s |}'
                 % (cmat(R), copt(Rinv, cmat), cvec(c), clims(L), cq(TOL), clims(out['lims']), cq(out['vol']),
                    cmat(out['rotinv']), pts, smps))
+
+    def coq_box(self, case, out):
+        return 'CBox ' + self.box_term(case, out)
+
+    def coq_fam(self, case, out):
+        """every member with the values ITS constructor was handed and what the box reports after the whole history"""
+        terms = []
+        for m, u, o in zip(case['members'], out['used'], out['members']):
+            if o.get('ok') and m['n2'] and not (o.get('rvs_ok', True) and o.get('shape_ok', True)):
+                return None      # reported by py_check
+            terms.append(self.box_term(dict(m, D=case['D'], R=u['R'], c=u['c'], L=u['L']), o))
+        return 'CFam ' + clist(terms)
+
+    def wobs_term(self, obs):
+        return clist(['{| wo_p := %s; wo_prior := %s; wo_dist := %s; wo_impl_w := %s; wo_impl_q := %s |}'
+                      % (cvec(o['p']), cq(o['prior']), cq(o['dist']), cq(o['w']), cq(o['q'])) for o in obs])
+
+    def coq_hist(self, case, out):
+        steps = []
+        for st, o in zip(case['steps'], out['steps']):
+            if st['op'] == 'reset':
+                steps.append('HReset %s' % cq(ufr(st['eps'])))
+            elif st['op'] == 'eval':
+                steps.append('HEval {| eo_theta := %s; eo_dists := %s; eo_prior := %s; eo_tol := %s; eo_impl_val := %s; '
+                             'eo_impl_called := %s |}'
+                             % (cvec(o['theta']), clist([cq(ufr(x)) for x in o['dists']]), cq(o['prior']),
+                                cq(0 if all(o['exact']) else TOL), cq(o['val']), clist([cnat(i) for i in o['called']])))
+            elif st['op'] in ('sample', 'worker') and o['shape_ok']:
+                steps.append('HWeight {| ho_region := %s; ho_drawn := %s; ho_obs := %s |}'
+                             % (cnat(o['region']), cbool(o['drawn']), self.wobs_term(o['obs'])))
+        regs = clist([self.region_term(b) for b in case['regions']])
+        return ('CHist {| hc_regions := %s; hc_surrogate := %s; hc_eps0 := %s; hc_tol := %s; hc_steps := %s |}'
+                % (regs, cbool(case['surrogate']), cq(ufr(case['eps'])), cq(TOL), clist(steps)))
 
     def line_term(self, case, res, probes, K=None):
         tbl = clist(['(%s, %s)' % (cq(ufr(b)), cq(ufr(v))) for b, v in case['tbl']])
@@ -807,6 +1181,16 @@ class C19(PropCheck):
                 return None
             ws = [o['w'] for o in out['per'][case['emit_region']]]
             return key if any(w > 0 for w in ws) else None
+        if k == 'fam':
+            # a limits array object with a dimension that gets widened is handed to >= 2 constructors
+            for j, m in enumerate(case['members'][1:], 1):
+                if m['lim_mode'] in ('same', 'overwrite') and out['members'][j - 1].get('ok') and out['members'][j].get('ok') and \
+                        any(abs(ufr(b_) - ufr(a)) <= Fr(1, 900) for a, b_ in out['used'][j - 1]['L']):
+                    return key
+            return None
+        if k == 'hist':
+            # a point is evaluated again, bit-identically, under another cut-off for which the count differs
+            return key if out['visible'] else None
         return None
 
     def classify(self, case, out, clause):
